@@ -136,6 +136,8 @@ def C04(F, rep, tier, cx):
     """F1/F2 container and statistics layouts equal the format tables; L3/L4/L5 on LogContainer; F3 method/level flow; F4 cut size flow;
     F5/F6 who may write the compressed file / the uncompressed stream; E2 compress2 result checked"""
     LR = run_layout(F, rep, write_rules=('L3', 'L4', 'L5', 'L6', 'B2'), roundtrip=True, only=[LOGCONT])
+    # the payload is a sequence of objects an independent decoder can walk by the declared sizes: every class emits what its header declares
+    run_layout(F, rep, write_rules=('L3',))
     format_table(F, rep, LR, LOGCONT, FORMAT_LOGCONTAINER, 'F1')
     format_table(F, rep, LR, FILESTAT, FORMAT_FILESTATISTICS, 'F2', total=144)
     stat_size(F, rep)
